@@ -397,6 +397,16 @@ _EXTRA = {
     'R79': (['C17'], 'R79 (sibling): reify_attributes selects the attribute triples by the VALUE of the role (== / !=), never by the identity of the string object (`is`), which differs between processes.'),
     'R136': (['C05', 'C20'],
              'R136: in _rearrange every path from entry to exit passes the loop that contains the recursive call (CFG path search): no early return cuts a subtree off.'),
+    'R142': (['C09', 'C07', 'C08', 'C01', 'C19', 'C20'],
+             'R142: for every `x = next(it, None)`, each place where x is put into a list / chain / append / yield carries the branch fact that x is not None.'),
+    'R144': (['C12', 'C11'],
+             'R144: in _dereify_agenda (and its helpers) every append of RoleAlignment(...) counts one, every extend that keeps the RoleAlignment markers counts one per triple it walks; the heaviest CFG path through one round stays below two.'),
+    'R143': (['C11', 'C12', 'C16', 'C05'],
+             'R143: every groupby call: its data is sorted(..., key=<same key>) or sorted in place with that key; otherwise, when the groups end up in a dict, the loss of non-adjacent items is reported.'),
+    'R141': (['C17', 'C13', 'C16'],
+             'R141: for every class with __setstate__, each attribute it rebuilds with a call is compared with the call that builds the same attribute in __init__ (called names and literals must agree).'),
+    'R140': (['C16', 'C20', 'C15', 'C12', 'C11', 'C17'],
+             'R140: every `for` over a container or its keys()/items()/values() view whose body deletes from / adds to that same container: no CFG path leads from the resizing statement back to the loop head.'),
     'R139': (['C10', 'C05', 'C20', 'C12', 'C02', 'C07'],
              'R139: for every loop, a name set to the constant True in the body, initialised False before the loop and read after it, must not also be assigned a computed value in the body on a path that follows the raise through the loop head (CFG path search).'),
     'R138': (['C04', 'C14', 'C02', 'C16'],
